@@ -106,15 +106,18 @@ def _tagged(tag_any):
     return f
 
 
-def _design_prop(prop, tier, seed, filt, rule, strategies=(SAT, RND)):
+def _design_prop(prop, tier, seed, filt, rule, strategies=(SAT, RND), literal=None):
     t0 = time.time()
     cov, out, err = Coverage(), [], None
     try:
+        if literal and not common.replay_cases():
+            law_literal_check(prop, literal, cov, out)
         rng = random.Random(seed)
         cases = [c for c in gen_blocks.systematic_blocks() if filt(c)]
         n = 40 if tier == "quick" else 600
         cases += [c for c in gen_blocks.random_blocks(rng, n) if filt(c)]
         cases += common.witness_cases(prop)
+        cases = common.replay_cases() or cases
 
         def ops(c):
             return [{"op": "synth", "strategy": s, "n": pipeline.CAP, "exhaust": True, "timeout": 30} for s in strategies]
@@ -129,9 +132,56 @@ def _design_prop(prop, tier, seed, filt, rule, strategies=(SAT, RND)):
                     cov.sample(sample_of(r, 1))
     except tlc.TLCError as e:
         err = str(e)[:2000]
-    if not err and len(cov.nontrivial) < 2:
+    if not err and len(cov.nontrivial) < 2 and not common.replay_cases():
         err = "vacuity guard: fewer than 2 non-trivial cases"
     return common.finish(prop, tier, seed, "model_checking", out, cov.as_dict(rule), t0, machinery_error=err)
+
+
+def law_literal_check(prop, kind, cov, out):
+    """specification self-check against the property text: MCLaws compares Design!Valid with the literal statement
+    (NestGroups / PerRepetition) on every complete sequence of tiny designs"""
+    from gen import basic, cross, K, case
+    import export
+    cases = []
+    if kind == "Nest":
+        F = [basic("o", 2), basic("i", 2), basic("u", 2)]
+        ib = [cross([2], [2]), cross([2], [2], [K("AtMostKInARow", k=1, f=2, l=1)]), cross([2, 3], [2]),
+              cross([2], [2], [K("Pin", i=0, f=2, l=2)])]
+        for k, inner in enumerate(ib):
+            cases.append(case(F, gen_blocks.nest(cross([1], [1]), inner), "C", ["Nest", "literal"], "lit-nest-%d" % k))
+        F3 = [basic("o", 3), basic("i", 2)]
+        cases.append(case(F3, gen_blocks.nest(cross([1], [1]), cross([2], [2])), "C", ["Nest", "literal"], "lit-nest-32"))
+    else:
+        F = [basic("a", 2), basic("b", 2)]
+        inners = [cross([1], [1]), cross([1], [1], [K("AtMostKInARow", k=1, f=1, l=1)]), cross([1, 2], [1], [K("Pin", i=0, f=2, l=1)]),
+                  cross([1, 2], [1], [K("ExactlyK", k=1, f=2, l=1)]), cross([1, 2], [1], [K("AtLeastKInARow", k=2, f=2, l=1)])]
+        outers = [[], [K("AtMostKInARow", k=1, f=1, l=1)], [K("AtMostKInARow", k=2, f=2, l=0)], [K("Pin", i=-1, f=2, l=2)],
+                  [K("ExactlyK", k=2, f=2, l=1)]]
+        n = 0
+        for inner in inners:
+            for oc in outers:
+                if any(k["f"] not in inner["design"] for k in oc):
+                    continue
+                for m in (4, 6):
+                    cases.append(case(F, gen_blocks.rep(inner, [K("MinimumTrials", k=m)] + oc), "C", ["Repeat", "literal"], "lit-rep-%d" % n))
+                    n += 1
+    tcases = [export.tlc_case(c, enum=True) for c in cases]
+    path = tlc.write_cases(tcases, "laws")
+    try:
+        r = tlc.run_with_norm("MCLaws.tla", "MCLaws.cfg", path, tags=("LAW", "LAWOK"), timeout=1500)
+    finally:
+        os.unlink(path)
+    cov.stats["states"] = cov.stats.get("states", 0) + r.distinct
+    cov.stats["transitions"] = cov.stats.get("transitions", 0) + r.states
+    nvalid = sum(1 for rec in r.records if rec[0] == "LAWOK")
+    cov.notes["literal_statement"] = {"designs": len(cases), "sequences_judged": r.distinct, "valid_sequences": nvalid}
+    bad = [rec for rec in r.records if rec[0] == "LAW"]
+    if bad:
+        rec = bad[0]
+        raise tlc.TLCError("specification self-check failed (%s): Design!Valid=%s but the literal statement=%s on %s of %s"
+                           % (prop, rec[2], rec[3], rec[4], cases[rec[1] - 1]["id"]))
+    if nvalid < 10:
+        raise tlc.TLCError("literal-statement check is vacuous (%d valid sequences)" % nvalid)
 
 
 def c25(tier, seed):
@@ -139,14 +189,16 @@ def c25(tier, seed):
                         "Nest designs (systematic: outer/inner free factors, constraints in the outer block, inner block and on the "
                         "Nest, nested Nest left and right, outer MultiCrossBlock; plus seeded random ones): exhausted IterateSATGen and "
                         "RandomGen sets validated (MCTrace, clauses sustain/crossing/constraints of rule R8) and compared with the "
-                        "enumeration of Design behaviours; trial count from Blocks!NestNB")
+                        "enumeration of Design behaviours; trial count from Blocks!NestNB; in addition MCLaws compares Design!Valid "
+                        "with the literal statement NestGroups on every sequence of tiny Nest designs", literal="Nest")
 
 
 def c26(tier, seed):
     return _design_prop("C26", tier, seed, _tagged(["inner", "outer", "Repeat", "Merge"]),
                         "the same constraint placed inside the repeated/merged/nested block and on the combinator, for every constraint "
                         "kind, with and without preamble and with trailing partial repetitions: exhausted sets of both samplers against "
-                        "the windows of rule R6 (Blocks!Windows) by MCTrace + MCEnum")
+                        "the windows of rule R6 (Blocks!Windows) by MCTrace + MCEnum; in addition MCLaws compares Design!Valid with "
+                        "the literal statement PerRepetition on every sequence of tiny Repeat designs", literal="Repeat")
 
 
 CHECKS = {"C24": c24, "C25": c25, "C26": c26}
